@@ -221,8 +221,20 @@ func checkField(path, term, kind string, v interface{}, doc map[string]interface
 	switch kind {
 	case "item":
 		if c02Silent(v) {
-			if a, ok := doc[term].([]interface{}); ok && len(a) == 0 {
-				used[term] = true
+			// a value with nothing to say may be left out, written as [], or written as an object whose members all
+			// stand for properties it has (a list holding only nil members as "bcc":[])
+			switch a := doc[term].(type) {
+			case []interface{}:
+				if len(a) == 0 {
+					used[term] = true
+				}
+			case map[string]interface{}:
+				if mm, ok := v.(T); ok && mm["t"] != nil && mm["nil"] != true {
+					if d := checkObject(path+"."+term, mm, a); d != "" {
+						return d
+					}
+					used[term] = true
+				}
 			}
 			return ""
 		}
